@@ -226,8 +226,10 @@ theorem C10_trie_wf_reachable (evs : List Ev) : Mqtt.Proofs.Topics.WF (run {} ev
   trieWF_reachable evs
 
 /-- After an accepted CONNECT answered with SessionPresent=1, every entry
-`(filter, qos)` of the kept session's topic list that the tries accept (QoS ≤ 2,
-`nextTopicLevel` parses the filter), and whose level path is not shared with
+`(filter, qos)` of the kept session's topic list that the store accepts (QoS ≤ 2,
+the filter does not begin with '$' and `nextTopicLevel` parses it:
+`entryLevels f = levels f` unless `checkSys f`, and `([], false)` then -
+`C10_entryLevels`), and whose level path is not shared with
 another entry of the list, is held in the trie for the new connection `c` at its
 granted QoS (`abs`: the entries of the trie).  Consequently (C06_smatch_char)
 the subscriber lookup for every name whose levels the filter path matches
@@ -237,12 +239,12 @@ theorem C10_resume_trie (b : B) (hwf : Mqtt.Proofs.Topics.WF b.topics.sroot) (c 
     (authOk : Bool) (h : Out.send c (.connack true 0) ∈ (first b c (.connect req) authOk).2) :
     ∃ s, b.storeGet req.clientId = some s.ref ∧ b.getSess s.ref = some s ∧
       Mqtt.Proofs.Topics.WF (first b c (.connect req) authOk).1.topics.sroot ∧
-      (s.topics.Pairwise (fun p p' => (Mqtt.Model.Topics.levels p.1).1 ≠ (Mqtt.Model.Topics.levels p'.1).1) →
-        ∀ p ∈ s.topics, Mqtt.Model.Topics.validQos p.2 = true → (Mqtt.Model.Topics.levels p.1).2 = true →
-          ((Mqtt.Model.Topics.levels p.1).1, c, grant Generated.maxQosAllowed p.2) ∈
+      (s.topics.Pairwise (fun p p' => (Mqtt.Proofs.Topics.entryLevels p.1).1 ≠ (Mqtt.Proofs.Topics.entryLevels p'.1).1) →
+        ∀ p ∈ s.topics, Mqtt.Model.Topics.validQos p.2 = true → (Mqtt.Proofs.Topics.entryLevels p.1).2 = true →
+          ((Mqtt.Proofs.Topics.entryLevels p.1).1, c, grant Generated.maxQosAllowed p.2) ∈
             Mqtt.Proofs.Topics.abs (first b c (.connect req) authOk).1.topics.sroot ∧
           ∀ (ns : List Mqtt.Model.Topics.Level) (q : Nat),
-            Mqtt.Proofs.Topics.walk (Mqtt.Model.Topics.levels p.1).1 ns = true →
+            Mqtt.Proofs.Topics.walk (Mqtt.Proofs.Topics.entryLevels p.1).1 ns = true →
             ∃ r, (first b c (.connect req) authOk).1.topics.sroot.smatchL ns true q = some r ∧
               (c, min q (grant Generated.maxQosAllowed p.2)) ∈ r) := by
   obtain ⟨s, h1, h2, h3, _⟩ := C10_resume_resubscribes b c req authOk h
@@ -250,7 +252,7 @@ theorem C10_resume_trie (b : B) (hwf : Mqtt.Proofs.Topics.WF b.topics.sroot) (c 
     rw [h3]; exact resubscribe_WF c s.topics b.topics hwf
   refine ⟨s, h1, h2, hwf', ?_⟩
   intro hpw p hp hq hl
-  have hm : ((Mqtt.Model.Topics.levels p.1).1, c, grant Generated.maxQosAllowed p.2) ∈
+  have hm : ((Mqtt.Proofs.Topics.entryLevels p.1).1, c, grant Generated.maxQosAllowed p.2) ∈
       Mqtt.Proofs.Topics.abs (first b c (.connect req) authOk).1.topics.sroot := by
     rw [h3]; exact resubscribe_holds c s.topics b.topics hwf hpw p hp ⟨hq, hl⟩
   refine ⟨hm, ?_⟩
@@ -259,6 +261,12 @@ theorem C10_resume_trie (b : B) (hwf : Mqtt.Proofs.Topics.WF b.topics.sroot) (c 
   refine ⟨r, hr, hperm.mem_iff.mpr ?_⟩
   rw [List.mem_filterMap]
   exact ⟨_, hm, by simp [hwalk]⟩
+
+/-- `entryLevels`: what the entry points of the topic store walk of a filter -/
+theorem C10_entryLevels (f : Bytes) :
+    (Mqtt.Model.Topics.checkSys f = false → Mqtt.Proofs.Topics.entryLevels f = Mqtt.Model.Topics.levels f) ∧
+    (Mqtt.Model.Topics.checkSys f = true → Mqtt.Proofs.Topics.entryLevels f = ([], false)) :=
+  ⟨Mqtt.Proofs.Topics.entryLevels_of_not_sys f, Mqtt.Proofs.Topics.entryLevels_of_sys f⟩
 
 /-- the granted QoS is the requested one for QoS ≤ 2 (`Generated.maxQosAllowed` = 2) -/
 theorem C10_grant (q : Nat) (h : Mqtt.Model.Topics.validQos q = true) : grant Generated.maxQosAllowed q = q := by
@@ -279,7 +287,8 @@ example :
     let b := (run Ex.base2 [.close 1]).1
     let b' := (first b 3 (.connect (Ex.conn Ex.idA false)) true).1
     (b.getSess 1).map (·.topics) = some [(Ex.tW, 2), (Ex.tAB, 1)] ∧
-    Mqtt.Model.Topics.levels Ex.tW = ([[119]], true) ∧ Mqtt.Model.Topics.levels Ex.tAB = ([[97], [98]], true) ∧
+    Mqtt.Proofs.Topics.entryLevels Ex.tW = ([[119]], true) ∧
+    Mqtt.Proofs.Topics.entryLevels Ex.tAB = ([[97], [98]], true) ∧
     Mqtt.Proofs.Topics.abs b.topics.sroot = [([[97], [98]], 2, 0), ([[119]], 2, 1), ([[119]], 1000, 0)] ∧
     Mqtt.Proofs.Topics.abs b'.topics.sroot =
       [([[97], [98]], 2, 0), ([[97], [98]], 3, 1), ([[119]], 2, 1), ([[119]], 1000, 0), ([[119]], 3, 2)] := by
